@@ -198,7 +198,11 @@ def crash_signature(err):
         return "AddressSanitizer %s%s%s" % (kind, " of '%s' (declared line %s)" % (var.group(1), var.group(2)) if var else "", " at " + where if where else "")
     for ln in err.split("\n"):
         if "runtime error:" in ln:
-            return ln.split("runtime error:")[1].strip()[:120]
+            where = re.search(r"(/[^ :]+\.[hc]pp):(\d+)", ln)
+            loc = ""
+            if where:
+                loc = " at %s:%s" % (os.path.relpath(where.group(1), common.REPO) if where.group(1).startswith(common.REPO) else os.path.basename(where.group(1)), where.group(2))
+            return "UBSan " + re.sub(r"-?\d+", "N", ln.split("runtime error:")[1].strip())[:100] + loc
         if "ERROR: AddressSanitizer" in ln or "ERROR: LeakSanitizer" in ln:
             return ln.split("ERROR:")[1].strip()[:120]
         if "Assertion" in ln and "failed" in ln:
